@@ -375,6 +375,39 @@ def stubborn_servers_run(ctx, bins, peer, max_servers, stats):
         ctx.add_violation("c05/too-many-servers/stubborn", "%d server processes were observed alive at the same moment with --max-servers %d" % (peak["n"], max_servers), w)
 
 
+def client_mode_bound_run(ctx, bins, peer, max_servers, stats):
+    """Client mode has two kinds of in-process servers (reference and grpc-go). A slow helper client dials, at
+    every request, every server address it has been told so far: never more than --max-servers may accept."""
+    d = os.path.join(ctx.W, "c05-cbound-%d" % max_servers)
+    os.makedirs(d, exist_ok=True)
+    confp = os.path.join(d, "conf.yaml")
+    open(confp, "w").write(CONFIGS["C"])
+    evp = os.path.join(d, "events.jsonl")
+    script = {"default": "canned", "probe": False, "probe_known_ports": True, "answer_delay_ms": 350, "seed": ctx.seed, "mode": "logging"}
+    args = ["-v", "--conf", confp, "--mode", "client", "--max-servers", str(max_servers), "--run", "Basic/**", "--", peer, "client"]
+    env = {"VERIF_EVENTLOG": evp, "VERIF_PEER_SCRIPT": json.dumps(script)}
+    rc, to, text = e2e.run_runner(ctx, bins, args, "c05-cbound-%d" % max_servers, timeout=600, env=env, race_label="c05-cbound-%d" % max_servers)
+    evs = load_events(evp)
+    recv = [e for e in evs if e["ev"] == "client_recv" and "known_servers_alive" in e]
+    w = {"scenario": "client mode (reference + grpc-go servers in-process), --max-servers %d, helper client answers after 350 ms and dials every server address seen so far" % max_servers,
+         "argv": " ".join(args), "exit": rc, "requests": len(recv), "output_tail": text[-600:]}
+    if to:
+        ctx.add_violation("c05/not-terminating/client-mode-bound", "the run did not terminate within the progress bound", w)
+        return
+    ports = {(e["host"], e["port"]) for e in recv}
+    grpc_marked = sum(1 for e in recv if "(grpc server impl)" in e["name"])
+    if len(recv) < 10 or len(ports) < 3 or grpc_marked == 0:
+        ctx.inconclusive.append("c05 client-mode-bound: too little happened (%d requests, %d server addresses, %d for the grpc-go server)" % (len(recv), len(ports), grpc_marked))
+        return
+    peak = max(e["known_servers_alive"] for e in recv)
+    worst = max(recv, key=lambda e: e["known_servers_alive"])
+    stats.setdefault("client_mode_bound", []).append({"max_servers": max_servers, "requests": len(recv), "server_addresses": len(ports), "peak_alive": peak, "grpc_server_requests": grpc_marked})
+    stats["client_mode_bound_decided"] = stats.get("client_mode_bound_decided", 0) + 1
+    if peak > max_servers:
+        w["moment"] = {"request": worst["name"], "alive": worst.get("alive_addrs")}
+        ctx.add_violation("c05/too-many-servers/client-mode", "%d in-process servers accepted connections at the same moment with --max-servers %d" % (peak, max_servers), w)
+
+
 def run(ctx, bins, peer, tier):
     rnd = random.Random(ctx.seed * 7919 + 1)
     stats = {}
@@ -383,6 +416,8 @@ def run(ctx, bins, peer, tier):
         server_leaves_run(ctx, bins, peer, j, code, ms, stats)
     for ms_ in ((2,) if tier == "quick" else (1, 2, 3)):
         stubborn_servers_run(ctx, bins, peer, ms_, stats)
+    for ms_ in ((1,) if tier == "quick" else (1, 2, 3)):
+        client_mode_bound_run(ctx, bins, peer, ms_, stats)
     nruns = 18 if tier == "quick" else 150
     plans = []
     for i in range(nruns):
